@@ -289,6 +289,29 @@ pub fn run(trace: &Trace, peers: &mut [Peer]) -> Outcome {
                     }
                     log.add(b"T");
                 }
+                // the builds also agree on what they refuse: two altered copies (a public value changed, a root set
+                // without the root) must not be accepted under any build
+                let mut bad = mb.clone();
+                if bad.len() >= 288 {
+                    bad[224] ^= 1; // low byte of y
+                }
+                let bad_input = hex(&enc_verify_input(&bad, signal));
+                let other_root = hex(&fr_to_le32(&h(&[root, Fr::from(1u64)])));
+                for p in peers.iter_mut() {
+                    let r1 = if p.stateless {
+                        p.call(json!({"cmd":"verify_roots","input":bad_input,"roots":hex(&fr_to_le32(&root))}))
+                    } else {
+                        p.call(json!({"cmd":"verify_rln","input":bad_input}))
+                    };
+                    let r2 = p.call(json!({"cmd":"verify_roots","input":input,"roots":other_root}));
+                    o.counters.add("oracle_evaluations", 2);
+                    if r1["verdict"] == true || r2["verdict"] == true {
+                        fail!("build_accepts_what_others_refuse", format!("build '{}' accepted an altered copy or a root set without the message root (message produced under '{pname}')", p.name), ei);
+                    }
+                    if r1.get("panic").is_some() || r2.get("panic").is_some() || r1.get("transport").is_some() {
+                        fail!("peer_failed", format!("{}: {} {}", p.name, r1, r2), ei);
+                    }
+                }
             }
         }
     }
